@@ -168,8 +168,9 @@ static void body(void) {
     /* intact, every truncation, every single-byte substitution */
     if (run_all(r->frame, r->flen, dict, r->dlen, r->clen)) goto done;
     int family = !strncmp(r->name, "rawtail", 7) || r->clen > 4096 || synth;      /* ~800 near-identical frames, and frames regenerating a lot: intact decode, truncations, thinned substitutions */
-    for (size_t k = 0; k < r->flen; k += (synth && k > 24 && k + 48 < r->flen ? 131 : family && k + 48 < r->flen ? 8 : 1)) if ((int)(k % (size_t)nparts) == part && run_all(r->frame, k, dict, r->dlen, r->clen)) goto done;
-    for (size_t p = 0; p < r->flen; p += (synth && p > 24 && p + 48 < r->flen ? 257 : family && p + 48 < r->flen ? 16 : 1)) {
+    for (size_t k = 0; k < r->flen; k += (synth && k > 24 && k + 48 < r->flen ? 263 : !strncmp(r->name, "rawtail", 7) && k >= 10 && k + 64 < r->flen ? 32 : family && k + 48 < r->flen ? 8 : 1)) if ((int)(k % (size_t)nparts) == part && run_all(r->frame, k, dict, r->dlen, r->clen)) goto done;
+    int rawtail = !strncmp(r->name, "rawtail", 7);      /* ~800 near-identical frames that differ in their last bytes: header and tail positions only */
+    for (size_t p = 0; p < r->flen; p += (synth && p > 24 && p + 48 < r->flen ? 521 : rawtail && p >= 10 && p + 64 < r->flen ? 64 : family && p + 48 < r->flen ? 16 : 1)) {
         if ((int)(p % (size_t)nparts) != part) continue;
         int all = (int)r->flen <= g_allvals;
         static const int few[] = {0x01, 0x80, 0xFF, 0x7F, 0x10, 0xFE, 0x02};
